@@ -2,7 +2,7 @@
    ONLY statements: each is closed by `exact` of a lemma of theories/ClassesProofs.v; the side conditions compare
    the error kinds / message texts / arity test regenerated from /repo's vm.rs (YVGen.ClassSrc) with the model's. *)
 From Coq Require Import List String ZArith Bool Arith.
-From YVGen Require Import ClassSrc.
+From YVGen Require Import ClassSrc Consts.
 From YV Require Import Show Classes ClassSpec ClassLang ClassesProofs.
 Import ListNotations.
 Open Scope string_scope.
@@ -20,6 +20,8 @@ Proof. vm_compute. repeat split; reflexivity. Qed.
 Theorem C07_side_arity_test :
   src_arity_is_function_arity_minus_one = true /\ src_arity_test_is_disequality = true.
 Proof. vm_compute. split; reflexivity. Qed.
+Theorem C07_side_frames_max : N.to_nat FRAMES_MAX = frames_max.
+Proof. vm_compute. reflexivity. Qed.
 Theorem C07_side_messages_used : forall n a b,
   undefined_property n = nth 0 msg_undefined_property "" ++ n ++ nth 1 msg_undefined_property "" /\
   expected_args a b = nth 0 msg_expected_args "" ++ show_nat a ++ nth 1 msg_expected_args "" ++ show_nat b
@@ -84,6 +86,7 @@ Proof. exact constructor_returns_instance. Qed.
 
 Theorem C07_no_implicit_super_init : forall S f c fid k st cl,
   nth_error (closures st) fid = Some cl -> cl_kind cl = KInit -> cl_params cl = [] -> cl_body cl = [] ->
+  c_depth c <> frames_max ->
   exists st', ev S (Datatypes.S (Datatypes.S f)) c (TEnter (TClosure fid (VClass k)) []) st = (st', RVal (VInst (List.length (heap st)))) /\
     heap st' = (heap st ++ [mkInst k []])%list /\ out st' = out st /\ trace st' = trace st /\
     globals st' = globals st /\ hist st' = hist st /\ mstore st' = mstore st.
@@ -128,6 +131,7 @@ Proof. exact eval_mech_eq_spec_refuted_in_known_class. Qed.
 
 Print Assumptions C07_side_messages.
 Print Assumptions C07_side_arity_test.
+Print Assumptions C07_side_frames_max.
 Print Assumptions C07_side_messages_used.
 Print Assumptions C07_copydown_eq_chainwalk.
 Print Assumptions C07_table_lookup_is_nearest_definition.
